@@ -156,6 +156,7 @@ def check(program: Program, run: Run) -> None:
     run.rule("R2 literal ( ) [ ] opened by a renderer are closed by it on every path")
     run.rule("R3 no-kind / INSERT without rows or select / UPDATE without SET render '' in every builder class; DDL/LOAD builders likewise")
     run.rule("R4 every (builder method, foreign clause attribute read, attribute written) triple is in the reviewed table")
+    run.rule("R5 a repeatable (accumulating) builder writes every attribute monotonically: constant, accumulate, or derived from its own old value")
     run.exhaustive = True
     kinds = kind_states(program)
     n_cells = 0
@@ -246,6 +247,7 @@ def check(program: Program, run: Run) -> None:
             run.finding(f"C13/fragment:{cn}:{name}", f"{cn} renders {str(txt)[:60]!r} instead of '' ({name})", rule="R3")
 
     _couplings(program, run)
+    _accumulation(program, run)
 
 
 # ----------------------------------------------------------------------------- R4
@@ -314,6 +316,8 @@ class _Dep:
         self.p, self.recv = program, recv
         self.pairs: set = set()
         self.memo: dict = {}
+        self.forms: dict = {}      # attr -> set of write forms
+        self.form_sites: dict = {}
 
     def func(self, f: FuncInfo, ctrl: frozenset, arg_deps: frozenset, depth: int = 0):
         """returns (writes, return_deps)"""
@@ -338,10 +342,18 @@ class _Dep:
                         deps |= r
             return deps
 
-        def write(attr, deps, ctrl_now):
+        def write(attr, deps, ctrl_now, form="overwrite", node=None):
             st["writes"].add(attr)
             for r in set(deps) | set(ctrl_now):
                 self.pairs.add((r, attr))
+            if form == "overwrite":
+                if attr in deps:
+                    form = "reads-self"
+                elif attr in ctrl_now:
+                    form = "init"
+            self.forms.setdefault(attr, set()).add(form)
+            if form == "overwrite" and node is not None:
+                self.form_sites.setdefault(attr, (f, node))
 
         def block(stmts, ctrl_now):
             ctrl_now = set(ctrl_now)
@@ -386,19 +398,20 @@ class _Dep:
                                 d = set(deps)
                                 if isinstance(s, ast.AugAssign):
                                     d.add(x.attr)
-                                write(x.attr, d, ctrl_now)
+                                form = "aug" if isinstance(s, ast.AugAssign) else ("const" if isinstance(value, ast.Constant) else "overwrite")
+                                write(x.attr, d, ctrl_now, form, s)
                             elif isinstance(x, ast.Subscript):
                                 b = x.value
                                 while isinstance(b, (ast.Subscript, ast.Attribute)) and not (isinstance(b, ast.Attribute) and isinstance(b.value, ast.Name) and b.value.id == selfn):
                                     b = b.value
                                 if isinstance(b, ast.Attribute):
-                                    write(b.attr, deps | {b.attr}, ctrl_now)
+                                    write(b.attr, deps | {b.attr}, ctrl_now, "mutate")
                             elif isinstance(x, ast.Attribute):
                                 b = x.value
                                 while isinstance(b, (ast.Subscript, ast.Attribute)) and not (isinstance(b, ast.Attribute) and isinstance(b.value, ast.Name) and b.value.id == selfn):
                                     b = b.value
                                 if isinstance(b, ast.Attribute) and isinstance(b.value, ast.Name) and b.value.id == selfn:
-                                    write(b.attr, deps | {b.attr}, ctrl_now)
+                                    write(b.attr, deps | {b.attr}, ctrl_now, "mutate")
                 elif isinstance(s, ast.Expr):
                     e = s.value
                     deps = _attrs_in(e, selfn, local) | call_deps(e, ctrl_now)
@@ -409,7 +422,7 @@ class _Dep:
                             ad = set()
                             for a in e.args:
                                 ad |= _attrs_in(a, selfn, local) | call_deps(a, ctrl_now)
-                            write(v.attr, ad, ctrl_now)
+                            write(v.attr, ad, ctrl_now, "mutate")
                 elif isinstance(s, ast.Return):
                     if s.value is not None:
                         st["ret"] |= _attrs_in(s.value, selfn, local) | call_deps(s.value, ctrl_now) | ctrl_now
@@ -423,6 +436,53 @@ def _reads_writes(program: Program, f: FuncInfo, recv: ClassInfo):
     d = _Dep(program, recv)
     writes, _ = d.func(f, frozenset(), frozenset())
     return d.pairs, writes
+
+
+# writes that replace earlier state by documented design (one reason each)
+OVERWRITE_OK = {
+    ("select", "_selects"): "select('*') replaces the select list by a star (documented: terms after a star are dropped)",
+}
+
+
+def _accumulation(program: Program, run: Run) -> None:
+    """R5: a builder method that accumulates into its clause (append / &= / x = x + ...) is called repeatedly by design;
+    every other attribute it writes must be written monotonically (constant, or derived from its own old value) -- an
+    overwrite computed from the latest argument alone silently discards what earlier calls recorded."""
+    n = 0
+    seen = set()
+    for cn in BUILDER_CLASSES:
+        c = program.cls(cn)
+        names = []
+        for k in c.mro:
+            for nm, f in k.methods.items():
+                if f.is_builder and nm not in names:
+                    names.append(nm)
+        for nm in names:
+            f = c.resolve(nm)
+            d = _Dep(program, c)
+            d.func(f, frozenset(), frozenset())
+            if nm == "join":
+                dj = c.resolve("do_join")
+                if dj is not None:
+                    d.func(dj, frozenset(), frozenset())
+            acc = {a for a, fs in d.forms.items() if fs & {"mutate", "aug", "reads-self", "init"}}
+            if not acc:
+                continue
+            for a, fs in sorted(d.forms.items()):
+                if (nm, a) in seen:
+                    continue
+                seen.add((nm, a))
+                n += 1
+                bad = "overwrite" in fs and (nm, a) not in OVERWRITE_OK
+                site = d.form_sites.get(a)
+                run.ob("C13/R5 state written by a repeatable (accumulating) builder is written monotonically", f"{nm}:{a}", not bad,
+                       detail=",".join(sorted(fs)), where=site[0].loc(site[1]) if site else f.loc())
+                if bad:
+                    run.finding(f"C13/overwrite-in-accumulating:{nm}:{a}",
+                                f"{nm}() accumulates into {sorted(acc - {a})[:3]} (it is meant to be called repeatedly) but assigns {a} from the latest call alone: "
+                                f"what an earlier {nm}() call recorded in {a} is discarded, so repeated calls do not accumulate and the call order matters",
+                                where=site[0].loc(site[1]) if site else f.loc(), rule="R5")
+    run.analysed["accumulating_writes"] = n
 
 
 def _couplings(program: Program, run: Run) -> None:
